@@ -150,7 +150,7 @@ var posCheck = hx.NewCheck("token_positions", oraclePos)
 
 func TestTokenPositions(t *testing.T) {
 	hx.Rule("token_positions", "G-LEX texts with arbitrary line structure; every token/comment start and end vs generated line:column (exact on ASCII tab-free line prefixes, line number otherwise), 1-based, ordered, inside input; non-trivial = multi-line text with a comment or multi-line literal before a checked token; distinct = (kinds, separator classes)")
-	posCheck.Rapid(t, hx.N(6000, 400000), func(rt *rapid.T) PosCase {
+	posCheck.Rapid(t, hx.N(120000, 1200000), func(rt *rapid.T) PosCase {
 		f := features()
 		lx := lexgen.GenLexemes(rt, f, 25)
 		tx := lexgen.Render(lx, lexgen.GenSeps(rt, f, lx, "s"))
@@ -256,7 +256,7 @@ var errCheck = hx.NewCheck("tokenizer_error_location", oracleErr)
 
 func TestTokenizerErrorLocation(t *testing.T) {
 	hx.Rule("tokenizer_error_location", "valid G-LEX prefix + one lexical error of a known family at a known offset; the structured error's location must be the first character of the offending element (inside its span for escape/number/dollar families); non-trivial = the error is not on line 1 or follows a comment; distinct = (family, prefix kinds, separators)")
-	errCheck.Rapid(t, hx.N(4000, 200000), func(rt *rapid.T) ErrCase {
+	errCheck.Rapid(t, hx.N(80000, 800000), func(rt *rapid.T) ErrCase {
 		f := features()
 		var lx []lexgen.Lexeme
 		if rapid.IntRange(0, 9).Draw(rt, "hasprefix") > 0 {
@@ -388,7 +388,7 @@ var perrCheck = hx.NewCheck("parser_error_location", oraclePErr)
 
 func TestParserErrorLocation(t *testing.T) {
 	hx.Rule("parser_error_location", "G-SQL statement with one token-level corruption (delete/duplicate/swap/replace/insert/truncate, or a stray ']' that no viable prefix admits), laid out over several lines with comments, parsed with position tracking; a set error location must be the start of a token at or after the first corrupted token, and exactly the stray token for that family; non-trivial = corruption not on line 1; distinct = (kind, position, layout)")
-	perrCheck.Rapid(t, hx.N(6000, 300000), func(rt *rapid.T) PErrCase {
+	perrCheck.Rapid(t, hx.N(120000, 1200000), func(rt *rapid.T) PErrCase {
 		g := sqlgen.New(rt, sqlgen.AllFeatures())
 		st := sqlgen.Statement(g)
 		var r corrupt.Result
